@@ -380,6 +380,24 @@ func cmdCheck(args []string) int {
 			if strings.HasPrefix(l, "KNOWN-FINDING:") {
 				fmt.Println(l)
 			}
+			if strings.HasPrefix(l, "FINDING ") {
+				// "FINDING <class> <failing input>": a listed class is a known finding, any other a violation
+				f := strings.SplitN(l, " ", 3)
+				name := "standin:" + s.Name + "#" + f[1]
+				detail := ""
+				if len(f) > 2 {
+					detail = f[2]
+				}
+				if kf, ok := knownBy[name]; ok {
+					knownHit = append(knownHit, name)
+					fmt.Printf("KNOWN-FINDING: property=%s %s [%s; bounded stand-in, e.g. %s]\n", prop, kf.WhatFails, name, detail)
+				} else {
+					violations++
+					p := filepath.Join(outDir, "standin_"+sanitize(s.Name)+"_"+sanitize(f[1])+".replay.txt")
+					os.WriteFile(p, []byte(l+"\n"), 0o644)
+					violLines = append(violLines, fmt.Sprintf("VIOLATION property=%s replay=%s", prop, p))
+				}
+			}
 			if strings.HasPrefix(l, "VIOLATION ") {
 				violations++
 				violLines = append(violLines, l)
